@@ -44,6 +44,15 @@ static void mode_c06() {
         set_profiles(r, ps, s, rho, flavour);
         auto imp = std::make_shared<Impedance>(s.Z, (frequency_t)1e12);
         ElectricField ef(ps, imp, s.buckets, s.spacing, nullptr, s.frev, (meshaxis_t)s.revpart, s.Ib, s.E0, s.sE, s.dt);
+        // the wake must not depend on what the object was asked before: in half of the cases request the CSR
+        // spectrum (and a wake of another profile) first
+        bool history = r.chance(0.5);
+        if (history) {
+            ef.updateCSR(r.chance(0.5) ? 0 : (frequency_t)1e10);
+            if (r.chance(0.5)) { std::vector<double> other; Rng r2 = r; set_profiles(r2, ps, s, other, (flavour + 1) % 3); ef.wakePotential(); ef.updateCSR(0);
+                                 for (uint32_t b = 0; b < s.nb; b++) { boost::multi_array<projection_t, 1> p(boost::extents[s.n]); for (uint32_t x = 0; x < s.n; x++) p[x] = (float)rho[(size_t)b * s.n + x]; ps->setProjection(0, b, p); } }
+            M.ev("fields_with_call_history");
+        }
         const meshaxis_t* w = ef.wakePotential();
         // reference
         size_t kmax = s.N / 2;   // bins 0 .. floor(N/2)-1 are used
@@ -76,7 +85,7 @@ static void mode_c06() {
         if (s.N & (s.N - 1)) M.ev("non_power_of_two_lengths");
         if (!M.within("wake_err_over_max", worst / wmax, 1e-5) || !same_view) {
             vh::J d; d.s("setup", s.descr()).i("index", (long)wi).n("got", w[wi]).n("want", ref[wi]).n("max_abs_wake", wmax).i("views_agree", same_view);
-            M.violation(std::string("C06:convolution") + (s.nb > 1 ? ":multibunch" : ":single"), "wake potential differs from the direct DFT convolution with the impedance", d.str());
+            M.violation(std::string("C06:convolution") + (s.nb > 1 ? ":multibunch" : ":single") + (history ? ":after_other_requests" : ""), "wake potential differs from the direct DFT convolution with the impedance", d.str());
         }
         if (std::fabs((double)ef.getWakeScaling() - scale) > 1e-5 * std::fabs(scale)) {
             vh::J d; d.n("got", ef.getWakeScaling()).n("want", scale);
